@@ -1,6 +1,6 @@
 \* witness
 CONSTANTS
-  Objs = {1, 2, 3, 8, 9}
+  Objs = {1, 2, 3, 8, 9, 10}
   Types = {"P", "D", "VM", "VR"}
   TypesOf <- MC_TypesOf
   Loads <- MC_Loads
